@@ -18,7 +18,7 @@ def enabled(tree, meta):
     if g < mg:
         m2 = dict(meta, cmds=g + 1)
         for fs in meta["fsets"]:
-            out.append((c("", fs), m2, True))
+            out.append((c("", fs, i=meta.get("pats")), m2, True))
         for f in ("a.txt", "d/b.txt"):
             if f in med:
                 out.append((c("", meta["fsets"][0], sf=[f]), m2, True))
@@ -63,7 +63,25 @@ def flatten_and_judge(ctx, tree, now, case):
 
     dest = ctx.fresh("dest")
     sub.materialise(ctx.root, tree)
-    r = ctx.run("flatten", [ctx.root, dest], now=now)
+    # options of flatten itself: extra patterns on the command line / in a pattern file (outside the tree) - none of them
+    # matches a recorded path, so the expected records are the same
+    extra, given = [], []
+    fo = case.get("flatten_opts")
+    if fo == "i":
+        extra, given = ["-i", "*.bak"], ["*.bak"]
+    elif fo == "ii":
+        pf = os.path.join(ctx.base, "flatten-patterns.lst")
+        with sub.REAL["open"](pf, "w") as f:
+            f.write("*.bak\n\nThumbs.db\n")
+        extra, given = ["-ii", pf], ["*.bak", "Thumbs.db"]
+    elif fo == "i+ii":
+        pf = os.path.join(ctx.base, "flatten-patterns.lst")
+        with sub.REAL["open"](pf, "w") as f:
+            f.write("Thumbs.db")
+        extra, given = ["-i", "*.bak", "-ii", pf], ["*.bak", "Thumbs.db"]
+    if fo:
+        sig["flatten_opts"] = fo
+    r = ctx.run("flatten", [ctx.root, dest] + extra, now=now)
     stats["cmds"] += 1
     post = sub.readback(ctx.root)
     out = sub.readback(dest)
@@ -103,7 +121,13 @@ def flatten_and_judge(ctx, tree, now, case):
     # verify -pl
     pl = os.path.join(dest, pls[0])
     med = ref.media(tree)
-    files = {p: c for p, c in med.items() if c is not DIR}
+    gens = ref.generations(tree, "")
+    eff = list(ref.read_manifest(gens[-1]["bytes"])["ignore"] or ref.DEFAULT_PATTERNS) + given
+    files = {p: c for p, c in med.items() if c is not DIR and not ref.ignored(eff, p, False)}   # what verify -pl looks at
+    lost = [q for q in eff if q not in (m["ignore"] or [])]
+    if lost:
+        V("patterns-lost", f"the packing list carries the patterns {m['ignore']}; those in force ({eff}: latest generation + given "
+          f"with flatten) lack {lost}")
 
     def matches(cur):
         if set(cur) != set(got):
@@ -143,6 +167,10 @@ def expand(ctx, item):
         case = {"tree": tree, "now": now + 3}
         vs, stats, cls = flatten_and_judge(ctx, tree, now + 3, case)
         out.append((["flatten+verify-pl", stats["cmds"]], None, None, vs, ("flatten",) + tuple(cls)))
+        for fo in meta.get("flatten_opts", ()):
+            case = {"tree": tree, "now": now + 3, "flatten_opts": fo}
+            vs, stats, cls = flatten_and_judge(ctx, tree, now + 3, case)
+            out.append((["flatten " + fo + "+verify-pl", stats["cmds"]], None, None, vs, ("flatten", fo) + tuple(cls)))
     for op, m2, cont in enabled(tree, meta):
         if ops.is_edit(op):
             out.append((op, ops.edit(tree, op), m2, [], "edit:" + op[0]))
@@ -165,11 +193,16 @@ def main(tier, seed):
         plans = [dict(max_cmds=4, max_edits=2, fsets=[["xxh64"], ["md5"], ["c4", "md5"]], rich=True),
                  dict(max_cmds=3, max_edits=2, fsets=[["xxh64"], ["md5"], ["c4", "md5"], ["sha1"], ["xxh3", "xxh128"], ["c4"],
                                                       list(ref.FORMATS_CLI)])]
+    # a history with a user pattern and an ignored, never recorded file on disk; flatten plain, with -i, with -ii, with both
+    plans.append(dict(max_cmds=2, max_edits=1, fsets=[["xxh64"], ["md5"]], pats=["*.tmp"], flatten_opts=("i", "ii", "i+ii")))
     tot = {"states": 0, "transitions": 0}
     runs = []
     for pl in plans:
         meta = dict(cmds=0, edits=0, **pl)
-        r = engine.bfs(eng, expand, [(dict(T), meta, "tree")], max_depth=pl["max_cmds"] + pl["max_edits"] + 1, label=lab,
+        t0 = dict(T)
+        if pl.get("pats"):
+            t0.update({"render.tmp": b"ignored, never recorded", "d/cache.tmp": b"ignored too"})
+        r = engine.bfs(eng, expand, [(t0, meta, "tree")], max_depth=pl["max_cmds"] + pl["max_edits"] + 1, label=lab,
                        state_cap=200000)
         runs.append(dict({k: v for k, v in pl.items() if k != "fsets"}, format_sets=len(pl["fsets"]), **r))
         tot["states"] += r["states"]
@@ -180,7 +213,8 @@ def main(tier, seed):
                    "alter / restore / add / remove edits (failed entries, new-format entries); in every state with a history: "
                    "flatten into an empty destination, judge the packing list (one file, process flatten, one record per file "
                    "path ever recorded, per format the earliest non-failed digest, no directory records, source untouched), then "
-                   "verify -pl on the tree as it is and after tampering with each file"}
+                   "verify -pl on the tree as it is and after tampering with each file; one plan over a history with a user pattern (ignored "
+                   "files on disk) in which flatten also runs with -i, -ii and both: the packing list carries the patterns in force"}
     return eng.finish(cov, eval_case)
 
 
